@@ -520,5 +520,29 @@ def tasks():
 
 
 TRUSTED = ["z3/cvc5 (string order str.< is lexicographic by code point, as Python's str comparison)",
-           "pyvc semantics of the Python subset and of Automat dispatch"]
-ASSUMPTIONS = []
+           "pyvc semantics of the Python subset and of Automat dispatch (state set first, outputs in order, an input without a "
+           "row raises automat.NoTransition with the state unchanged; tables are extracted from the class bodies on every run)",
+           "LEADER / FOLLOWER (module singletons compared by identity) are two distinct constants",
+           "collaborators (Send, reactor, eventual queue, Inbound/Outbound, observers, the Connector as seen from the Manager and "
+           "vice versa, connections as seen from Manager/Connector, the Dilator as seen from Boss) are boundary objects: calls "
+           "recorded with receiver and arguments, arbitrary results; attr.evolve returns an arbitrary status value",
+           "Connector.stop_listeners / stop_pending_connectors / stop_pending_connections / _use_hints / _publish_hints and "
+           "Manager.use_hints are boundary events inside the machine contracts (teardown and dialling; C20 covers the hints); "
+           "util.dict_to_bytes is modelled as an arbitrary bytes value carrying the dict it was given"]
+ASSUMPTIONS = [
+    "NOT ATTEMPTED: 'after any loss the two sides converge on a new shared connection without deadlock' is a liveness property of the "
+    "product of two Managers, two Connectors and unbounded in-flight control messages; no per-function contract expresses it. What is "
+    "proved is the single-side safety part: role agreement, disjoint id spaces, one connection slot tied to the Manager state, one "
+    "winner per Connector generation, records only from a selected link, the previous generation stopped before the next is built, "
+    "exactly one reconnect / reconnecting per loss on the side that must send it, in-order exactly-once hand-over of dilate-N",
+    "which control inputs can arrive in which Manager state is stated, not excluded: every input raises automat.NoTransition (and does "
+    "nothing) outside the states listed in its contract; that a conformant peer never triggers those needs the two-party product",
+    "environment preconditions of the Manager inputs that start a Connector: the dilation key is known (Boss delivers the key before any "
+    "dilate-N phase can be decrypted; the code asserts it) and the unit-test hook _debug_stall_connector is off",
+    "Manager.rx_PLEASE / choose_role: the message is a dict (received_dilation_message has just read message['type']); a missing, "
+    "non-str or reflected 'side' raises KeyError / TypeError / ValueError and leaves the Manager without a role (stated, not excluded)",
+    "Manager.connector_connection_lost is called for the connection in use (wired by DilatedConnectionProtocol.set_manager at select())",
+    "DilatedConnectionProtocol.dataReceived / _Record.add_and_unframe are generators/loops over the framer: outside the subset here "
+    "(C12 covers framing); the Follower's own KCM is sent there, the Leader's only in Connector.select_and_stop_remaining (proved)",
+    "Noise authenticity (C12 assumption) is what makes 'KCM decrypted on this link' mean 'the Leader confirmed this link'",
+]
